@@ -18,7 +18,7 @@ from .c13 import criteria
 
 PID = 'C15'
 TIMEOUT = 60.0
-RULE = ('BFS from 5 containers over 24 state-changing operations (8 metric computations in cycle / augmented mode, 3 metric '
+RULE = ('BFS from 6 containers (one with zero cycles) over 24 state-changing operations (8 metric computations in cycle / augmented mode, 3 metric '
         'additions incl. a wrong-length one, cycle timings, 10 subset selections covering all six comparators and '
         'negative / decimal / exponent literals, chain timings) to the fix-point of canonical states or the depth bound; '
         '14 observations after every transition; non-trivial = the operation changed the canonical state')
@@ -34,7 +34,7 @@ EDGE = np.pi / 12
 
 
 def phases(seed):
-    """Five deterministic phase series."""
+    """Six deterministic phase series (one of them wrap-free: a container with zero cycles)."""
     out = collections.OrderedDict()
 
     def ramp(lengths, start=0.0, first_partial=0.0):
@@ -53,6 +53,7 @@ def phases(seed):
     wl = ramp([9, 13, 8])
     out['wrap-last'] = np.r_[wl, 0.3]
     out['single'] = np.r_[ramp([7], first_partial=3.0), ramp([15])[:9]]
+    out['no-wrap'] = np.linspace(0.1, 3.0, 17)
     out['mixed11'] = ramp([5, 21, 8, 13, 6, 34, 9, 7, 17, 11, 10][seed % 3:] + [12, 6][:seed % 3])
     return out
 
@@ -289,7 +290,7 @@ def compare(C, model, label, d, viols, aug_metrics):
             return
         want = np.asarray(model.metrics[k], dtype=float)
         if k in aug_metrics:
-            sure = np.array(model.aug_sure)
+            sure = np.array(model.aug_sure, dtype=bool)
             got, want = got[sure], want[sure]
         if not close(got, want):
             kind = 'metrics:value:augmented' if k in aug_metrics else ('metrics:value:chain' if k.startswith('chain') else 'metrics:value')
